@@ -86,6 +86,7 @@ type RespPlan struct {
 	Chunks  []int // body is written in these piece sizes with Flush in between (nil: one write)
 	DelayMS int   // the handler sleeps (simulated time) before answering
 	Hold    bool  // the handler parks at a yield point until the controller releases it
+	Park    bool  // the handler parks until the drain phase (not offered to the controller during Run)
 	Trailer [][2]string
 	NoCL    bool
 }
@@ -149,6 +150,8 @@ type World struct {
 	Start         time.Time
 	Probes        map[string]int
 	Yields        []*yieldPoint
+	Parked        []*yieldPoint
+	draining      bool
 	callbackCount map[string]int
 	Stuck         bool
 	schedHash     hash.Hash
@@ -214,6 +217,30 @@ func (w *World) Yield(name string) {
 	w.Yields = append(w.Yields, yp)
 	w.mu.Unlock()
 	<-yp.ch
+}
+
+// Park blocks the caller until the drain phase / teardown.
+func (w *World) Park(name string) {
+	yp := &yieldPoint{name: name, ch: make(chan struct{})}
+	w.mu.Lock()
+	if w.draining {
+		w.mu.Unlock()
+		return
+	}
+	w.Parked = append(w.Parked, yp)
+	w.mu.Unlock()
+	<-yp.ch
+}
+
+func (w *World) releaseParked() {
+	w.mu.Lock()
+	w.draining = true
+	ps := w.Parked
+	w.Parked = nil
+	w.mu.Unlock()
+	for _, y := range ps {
+		close(y.ch)
+	}
 }
 
 type lockedWriter struct {
@@ -479,6 +506,9 @@ func (w *World) backendHandler(rw http.ResponseWriter, r *http.Request) {
 	rp := w.Plan.Backend.Resp[rec.Tag]
 	if rp != nil && rp.Hold {
 		w.Yield("backend:" + rec.Tag)
+	}
+	if rp != nil && rp.Park {
+		w.Park("backend:" + rec.Tag)
 	}
 	if rp != nil && rp.DelayMS > 0 {
 		time.Sleep(time.Duration(rp.DelayMS) * time.Millisecond)
@@ -835,6 +865,7 @@ func (w *World) Run() {
 
 // Drain: no more faults, FIFO choices, bounded; lets in-flight work finish.
 func (w *World) Drain(maxSteps int) {
+	w.releaseParked()
 	for i := 0; i < maxSteps; i++ {
 		synctest.Wait()
 		acts := w.enabled()
@@ -862,6 +893,7 @@ func (w *World) SettleTime(seconds int) {
 
 // Teardown unwinds every goroutine of the world so the bubble can end.
 func (w *World) Teardown() {
+	w.releaseParked()
 	w.Cancel()
 	w.mu.Lock()
 	ys := w.Yields
